@@ -28,7 +28,8 @@ OT = "QtLogger::OwnThreadHandler"
 def run(ck):
     F = ck.facts
     ck.rule("C02-O1", "every call in Logger::messageHandler/processMessage that can reach a pipeline operation (running the handlers or flushing the sinks) is made with Logger::m_mutex held (one acquisition around the whole run)")
-    ck.rule("C02-O2", "OwnThreadHandler<B>::process holds its own m_mutex at the synchronous B::process call and at postEvent, in every instantiation")
+    ck.rule("C02-O2", "OwnThreadHandler<B>::process holds its own m_mutex at the synchronous B::process call and at postEvent, in every instantiation; "
+                      "resetOwnThread switches back to synchronous mode (m_worker = null) only after quit() and wait(), so caller-side and worker-side runs never overlap")
     ck.rule("C02-O5", "nested lock acquisitions form an acyclic order; the non-recursive handler mutex is never re-acquired on the same object while held")
     ck.rule("C02-O6", "the active logger is published through an atomic pointer, tested for null before use, and cleared by ~Logger")
     pproc = F.fn("QtLogger::Pipeline::process")
@@ -120,6 +121,12 @@ def run(ck):
             ck.ob("C02-O2", sitestr(f, n), held, "%s under OwnThreadHandler::m_mutex" % describe(n)[:60] if held else
                   "%s is executed without OwnThreadHandler::m_mutex held on every path" % describe(n)[:80],
                   key="OwnThreadHandler::process|%s-unlocked" % ("sync-run" if n in base else "post"))
+
+    # the two executors (caller under m_mutex / worker thread) never overlap: the handler goes back to synchronous mode only
+    # after the worker thread has finished (the worker takes neither mutex while it delivers)
+    from rules.oth import worker_cleared_after_stop
+    for cls_ in sorted({f.cls for f in insts}):
+        worker_cleared_after_stop(ck, cls_, cls_.split("<")[-1].rstrip(">").split("::")[-1], "C02-O2")
 
     # ---- O5 lock order
     lock_order(ck)
